@@ -26,6 +26,38 @@ CLAIMED = {
              "value & (2^w-1) computed in u64 against the input as received by the driver, row.inputs and expected values on input, output, bidirectional and virtual columns."),
     "C08": C("proptest: generated expression trees printed with minimal/redundant parentheses vs independent evaluator",
              "Expression trees (depth <= 6, all operators, every radix, 64-bit boundary operands, boundary shift counts, hazards in unselected ite branches) evaluated by an independent evaluator and compared with the untruncated expected value of a 64-bit column."),
+    "C04": C("proptest: generated feedback programs and device histories vs reference interpreter",
+             "Programs that read outputs anywhere an expression may appear, against device answers that change on every call (Z/X sometimes, read signal omitted sometimes), compared with the reference interpreter; constructor refusal and Z/X error items checked."),
+    "C06": C("proptest: generated signal lists x headers (subset, permutation, split pairs) vs closed-form binding oracle",
+             "Every row's inputs/outputs compared entry by entry with closed formulas (list order, by-name binding, defaults, X for omitted expected); changed-flag implication checked against the driver log."),
+    "C09": C("proptest token soup + mutated valid programs; libFuzzer target parse_bytes in the thorough tier; totality + span-validity oracle",
+             "Any text parses to Ok or Err without panic; every error span lies in the source on char boundaries and renders with miette.",
+             "Inputs bounded in nesting depth (native stack exhaustion is outside the statement); a hang is reported as inconclusive (exit 2)."),
+    "C10": C("proptest chaos profile + libFuzzer target run_structured (thorough); no-panic oracle + reference-interpreter hazard oracle over the crate's own draw log",
+             "Accepted tests with every hazard source (division by zero, unassigned variables, empty random ranges, signExt, boundary arithmetic, widths to 64, shared columns, Z/X answers, driver errors) never panic; hazards surface as error items.",
+             "Programs that do not terminate by construction are not generated."),
+    "C11": C("proptest: fitted signal list + 0-2 list edits vs independent static-analysis oracle (iff), accepted tests iterated",
+             "with_signals verdict compared with the four clauses of the statement evaluated on the model by an independent scope analysis; accepted tests are iterated to the end with an honest driver."),
+    "C12": C("proptest: valid generated program + one of 19 grammar-breaking edit kinds, each with and without final newline; must-reject oracle",
+             "Each edit kind is invalid by a grammar argument written next to its implementation; both newline variants must be rejected."),
+    "C13": C("proptest fault injection: failure at every call index / six deviation kinds, metamorphic against the fault-free run",
+             "Driver errors reach the caller as that very error at exactly the failing item; layout deviations make that item an error; earlier items equal the fault-free run."),
+    "C14": C("proptest: generated declares anywhere in the program vs independent evaluation over the same call's answers",
+             "Virtual entries (64 bit, value, expected) compared with the reference; Z/X reads give error items."),
+    "C15": C("proptest: repeated parses, interleaved iterators by generated schedules, static-vs-dynamic metamorphic comparison",
+             "Parse/bind equality across 2-8 parses, 1-4 interleaved iterators vs a sequential run, try_iter_static gate vs independent static analysis, static rows vs dynamic rows under two scripts.",
+             "One open known finding (unassigned variable named like an output) is stepped over, see known_findings.json."),
+    "C16": C("proptest: generated circuit descriptions rendered as .dig XML + corruptions of them and of the fixtures; libFuzzer target dig_bytes (thorough)",
+             "Totality on any text; interface recovery (labelled pins as a multiset, bidirectional inference iff stated condition), tests verbatim in order, load_test / load_test_by_name equations."),
+    "C17": C("proptest: generated random/resetRandom programs; the crate's hook event log replayed by the reference interpreter",
+             "Range, one-draw-per-evaluation, laziness, reset replay and literal-equivalence decided from the crate's own draw log (feature verif-hooks) replayed through the reference interpreter.",
+             "Needs the add-only verif-hooks feature; the original draw expression stays what executes."),
+    "C18": C("proptest: vars() after every row vs reference interpreter environment",
+             "vars() compared with the reference environment at the evaluation of each row's source statement, incl. shadowing, ended loops, expansion items and virtual-signal evaluation in between."),
+    "C19": C("proptest: generated layouts with tagged rows; printer's line table as oracle (no control-flow semantics)",
+             "Every yielded row (dynamic and static) carries a tag in a dedicated input column; row.line must equal the line the printer put that row on, for LF/CRLF, leading blank lines, comment/blank lines, missing final newline."),
+    "C20": C("proptest metamorphic: one token sequence printed in two layouts",
+             "Canonical vs re-laid-out text (blank space, tabs, CR, comments, inserted lines, literal radix): same parse and bind verdicts, equal rows except line, which moves with the row; also for programs broken by one edit."),
 }
 
 def props():
@@ -67,7 +99,7 @@ def main():
             na.append({"property_id": pid, "reason": "check not built yet (work in progress; the technique applies, see DESIGN.md section 4)"})
     m = {
         "version": 1,
-        "setup_cmd": "cd /verif/harness && CARGO_NET_OFFLINE=true cargo build --release --offline",
+        "setup_cmd": "cd /verif/harness && CARGO_NET_OFFLINE=true cargo build --release --offline && (cd /verif/harness && CARGO_NET_OFFLINE=true cargo +nightly fuzz build 2>&1 | tail -3 || true)",
         "hooks": {
             "guard": "cargo feature verif-hooks (off by default)",
             "enable": "the harness depends on digital_test_runner by path (/repo) with features = [\"verif-hooks\"]",
